@@ -351,7 +351,10 @@ def run_history_case(c, extra_cfg=None):
     for _ in range(nops):
         opc = a[pos]
         if opc == 0:
-            client.suppress_positive_response(wait_nrc=(a[pos + 1] == 1)).__enter__()
+            if a[pos + 1] == 2:     # the bare form: with client.suppress_positive_response:
+                client.suppress_positive_response.__enter__()
+            else:
+                client.suppress_positive_response(wait_nrc=(a[pos + 1] == 1)).__enter__()
             pos += 2
         elif opc == 1:
             client.suppress_positive_response.__exit__(None, None, None)
@@ -426,7 +429,8 @@ class H:
         self.n = 0
 
     def spr_enter(self, wait_nrc=False):
-        self.ints += [0, 1 if wait_nrc else 0]
+        """wait_nrc: False / True, or None for the bare form (the context manager entered without calling it)"""
+        self.ints += [0, 2 if wait_nrc is None else (1 if wait_nrc else 0)]
         self.n += 1
         return self
 
@@ -569,7 +573,7 @@ def case_ops(c):
     for _ in range(nops):
         opc = a[pos]
         if opc == 0:
-            ops.append(('spr_enter', a[pos + 1] == 1)); pos += 2
+            ops.append(('spr_enter', None if a[pos + 1] == 2 else a[pos + 1] == 1)); pos += 2
         elif opc == 1:
             ops.append(('spr_exit',)); pos += 1
         elif opc == 2:
